@@ -526,6 +526,119 @@ example : LB dist20 (fun b _ => dist20 b) exTree := by
 example : bestFirst ltb dist20 (fun b _ => dist20 b) exTree = some (some (2, 4)) := by decide
 end examples
 
+/-! ## the simultaneous traversal of two trees -/
+section twotree
+variable {B L : Type}
+
+private theorem mem_leavesList' (ts : List (Model.Bvh.Tree B L)) (p : B × L) (h : p ∈ leavesList ts) :
+    ∃ t ∈ ts, p ∈ leaves t := by
+  induction ts with
+  | nil => simp [leavesList] at h
+  | cons x xs ih =>
+    simp only [leavesList, List.mem_append] at h
+    rcases h with h | h
+    · exact ⟨x, by simp, h⟩
+    · obtain ⟨t, ht, hp⟩ := ih h; exact ⟨t, by simp [ht], hp⟩
+
+private theorem nestedList_mem (contains : B → B → Prop) (b : B) (ts : List (Model.Bvh.Tree B L))
+    (h : NestedList contains b ts) : ∀ t ∈ ts, contains b t.box ∧ Nested contains t := by
+  induction ts with
+  | nil => intro t ht; simp at ht
+  | cons x xs ih =>
+    intro t ht
+    obtain ⟨h1, h2, h3⟩ := h
+    simp only [List.mem_cons] at ht
+    rcases ht with rfl | ht
+    · exact ⟨h1, h2⟩
+    · exact ih h3 t ht
+
+private theorem size_mem_le (ts : List (Model.Bvh.Tree B L)) : ∀ t ∈ ts, size t ≤ sizeList ts := by
+  induction ts with
+  | nil => intro t ht; simp at ht
+  | cons x xs ih =>
+    intro t ht
+    simp only [List.mem_cons] at ht
+    simp only [sizeList]
+    rcases ht with rfl | ht
+    · omega
+    · have := ih t ht; omega
+
+/-- the pair predicate is monotone in both boxes -/
+def MonotonePair (contains : B → B → Prop) (pp : B → B → Bool) : Prop :=
+  (∀ a a' b : B, contains a a' → pp a' b = true → pp a b = true) ∧
+  (∀ a b b' : B, contains b b' → pp a b' = true → pp a b = true)
+
+/-- **two-tree traversal is complete**: on two nested trees, for a pair predicate that is monotone in both boxes, every
+pair of leaves whose own boxes satisfy the predicate is reported, as soon as the fuel covers both trees
+(induction on both trees at once) -/
+theorem pairs_complete (contains : B → B → Prop) (pp : B → B → Bool) (hm : MonotonePair contains pp) :
+    ∀ (f : Nat) (t1 t2 : Model.Bvh.Tree B L), size t1 + size t2 ≤ f → Nested contains t1 → Nested contains t2 →
+      ∀ (b1 b2 : B) (d1 d2 : L), (b1, d1) ∈ leaves t1 → (b2, d2) ∈ leaves t2 → pp b1 b2 = true →
+        (d1, d2) ∈ pairs pp f t1 t2 := by
+  intro f
+  induction f with
+  | zero => intro t1 t2 hsz; cases t1 <;> simp [size] at hsz <;> omega
+  | succ f ih =>
+    intro t1 t2 hsz hn1 hn2 b1 b2 d1 d2 hl1 hl2 hp
+    -- the predicate holds on the two roots
+    have hroot : pp t1.box t2.box = true := by
+      have h1 : pp t1.box b2 = true :=
+        pred_up contains (fun x => pp x b2) (fun a a' hc h => hm.1 a a' b2 hc h) t1 hn1 b1 d1 hl1 hp
+      exact pred_up contains (fun y => pp t1.box y) (fun b b' hc h => hm.2 t1.box b b' hc h) t2 hn2 b2 d2 hl2 h1
+    cases t1 with
+    | leaf bx1 dx1 =>
+      simp only [leaves, List.mem_singleton, Prod.mk.injEq] at hl1
+      obtain ⟨rfl, rfl⟩ := hl1
+      cases t2 with
+      | leaf bx2 dx2 =>
+        simp only [leaves, List.mem_singleton, Prod.mk.injEq] at hl2
+        obtain ⟨rfl, rfl⟩ := hl2
+        simp only [Tree.box] at hroot
+        simp [pairs, Tree.box, hroot]
+      | node bx2 cs2 =>
+        simp only [leaves] at hl2
+        obtain ⟨c2, hc2, hlc2⟩ := mem_leavesList' cs2 _ hl2
+        obtain ⟨_, hnc2⟩ := nestedList_mem contains bx2 cs2 hn2 c2 hc2
+        have hs := size_mem_le cs2 c2 hc2
+        simp only [size] at hsz
+        simp only [pairs, hroot, if_true, List.mem_flatMap]
+        exact ⟨c2, hc2, ih (Model.Bvh.Tree.leaf b1 d1) c2 (by simp only [size]; omega) (by simp [Nested]) hnc2 b1 b2 d1 d2 (by simp [leaves]) hlc2 hp⟩
+    | node bx1 cs1 =>
+      simp only [leaves] at hl1
+      obtain ⟨c1, hc1, hlc1⟩ := mem_leavesList' cs1 _ hl1
+      obtain ⟨_, hnc1⟩ := nestedList_mem contains bx1 cs1 hn1 c1 hc1
+      have hs1 := size_mem_le cs1 c1 hc1
+      cases t2 with
+      | leaf bx2 dx2 =>
+        simp only [leaves, List.mem_singleton, Prod.mk.injEq] at hl2
+        obtain ⟨rfl, rfl⟩ := hl2
+        simp only [size] at hsz
+        simp only [pairs, hroot, if_true, List.mem_flatMap]
+        exact ⟨c1, hc1, ih c1 (Model.Bvh.Tree.leaf b2 d2) (by simp only [size]; omega) hnc1 (by simp [Nested]) b1 b2 d1 d2 hlc1 (by simp [leaves]) hp⟩
+      | node bx2 cs2 =>
+        simp only [leaves] at hl2
+        obtain ⟨c2, hc2, hlc2⟩ := mem_leavesList' cs2 _ hl2
+        obtain ⟨_, hnc2⟩ := nestedList_mem contains bx2 cs2 hn2 c2 hc2
+        have hs2 := size_mem_le cs2 c2 hc2
+        simp only [size] at hsz
+        simp only [pairs, hroot, if_true, List.mem_flatMap]
+        exact ⟨c1, hc1, c2, hc2, ih _ _ (by omega) hnc1 hnc2 b1 b2 d1 d2 hlc1 hlc2 hp⟩
+
+/-- non-vacuity: interval overlap is monotone in both arguments, and the example tree against itself -/
+def ioverlap (a b : IBox) : Bool := decide (a.1 ≤ b.2) && decide (b.1 ≤ a.2)
+example : MonotonePair icontains ioverlap := by
+  constructor
+  · intro a a' b h hp
+    simp only [ioverlap, Bool.and_eq_true, decide_eq_true_eq] at *
+    obtain ⟨h1, h2⟩ := h; omega
+  · intro a b b' h hp
+    simp only [ioverlap, Bool.and_eq_true, decide_eq_true_eq] at *
+    obtain ⟨h1, h2⟩ := h; omega
+example : pairs ioverlap (size exTree + size exTree) exTree exTree =
+    [(0, 0), (1, 1), (1, 2), (2, 1), (2, 2), (3, 3), (4, 4), (5, 5)] := by decide
+
+end twotree
+
 /-! ## the lower bound behind the distance pruning of the composite-shape visitors -/
 section pruning
 open Model
